@@ -233,6 +233,7 @@ PROPERTIES = {
             ('C05-R4', cglob.rule_specials_and_start, 'quick'),
             ('C02-R7', c02.rule_nodir, 'quick'),
             ('C12-R6', cextra.rule_same_name_forwarding, 'quick'),
+            ('C12-R7', cextra.rule_descriptor_presence, 'quick'),
         ],
     },
     'C13': {
